@@ -501,6 +501,15 @@ def _termination(ctx, cg, reach, loops_floor=40):
                 for y in subterms(a):
                     if y[0] == "call" and oblig.INDEX_FNS.search(str(y[1])) and len(y[2]) == 2 and norm(y[2][0])[0] == "param":
                         okk, why = True, "strict sub-slice of the parameter"
+                    # the rest after split_last / split_first of the parameter is one element shorter
+                    if y[0] == "field" and y[2] == "1":
+                        z = norm(y[1])
+                        if z[0] == "payload":
+                            z = norm(z[2])
+                        elif z[0] == "call" and str(z[1]).rsplit("::", 1)[-1] in ("unwrap", "expect", "unwrap_unchecked") and z[2]:
+                            z = norm(z[2][0])
+                        if z[0] == "call" and str(z[1]).rsplit("::", 1)[-1] in ("split_last", "split_first") and z[2] and norm(z[2][0])[0] == "param":
+                            okk, why = True, "strict sub-slice of the parameter"
             # structural recursion over an owned value: the argument is a strict part of a parameter (element, field, payload)
             for a in args:
                 y, steps = a, 0
